@@ -454,9 +454,30 @@ pub(crate) mod verif_probe {
         { let mut l = log.lock(); l.reqs.clear(); l.phase = 1;
           if let Some(sts) = v["statuses"].as_array() { l.statuses = sts.iter().map(|x| x.as_u64().unwrap() as u8).collect(); } }
         let mut a_out: Vec<u8> = vec![];
+        let mut other: Option<DuplexStream> = None;
         if let Some(steps) = v["steps"].as_array() {
             for st in steps {
                 if let Some(h) = st["send_hex"].as_str() { let _ = a.write_all(&unhex(h)).await; a_out.extend(drain(&mut a, 150).await); }
+                else if st["other_begin"].as_bool() == Some(true) {
+                    // another client takes the only connection of the pool and keeps it inside a transaction
+                    let (mut c, _t) = connect_client(&db, &usern, csmap.clone(), &shutdown_tx);
+                    let _ = read_until_ready(&mut c).await;
+                    { log.lock().phase = 0; }
+                    let _ = c.write_all(&simple_query("BEGIN")).await;
+                    let _ = read_until_ready(&mut c).await;
+                    { log.lock().phase = 1; }
+                    other = Some(c);
+                }
+                else if st["other_end"].as_bool() == Some(true) {
+                    if let Some(mut c) = other.take() {
+                        { log.lock().phase = 0; }
+                        let _ = c.write_all(&simple_query("COMMIT")).await;
+                        let _ = read_until_ready(&mut c).await;
+                        let _ = c.write_all(&[b'X', 0, 0, 0, 4]).await;
+                        tokio::time::sleep(Duration::from_millis(100)).await;
+                        { log.lock().phase = 1; }
+                    }
+                }
                 else if let Some(ms) = st["sleep_ms"].as_u64() { tokio::time::sleep(Duration::from_millis(ms)).await; a_out.extend(drain(&mut a, 50).await); }
                 else if st["pause"].as_bool() == Some(true) { pool.pause(); }
                 else if st["resume"].as_bool() == Some(true) { pool.resume(); }
